@@ -109,11 +109,18 @@ func checkC07(w *World, r *Report) {
 		}
 	}
 	lteEdges := boolCallEdges(unlock, func(c *ssa.Call) bool {
-		if !strings.HasSuffix(callName(c.Common()), "types.Coins.IsAllLTE") {
+		a := c.Common().Args
+		if lockedCall == nil || len(a) != 2 {
 			return false
 		}
-		a := c.Common().Args
-		return a[0] == ssa.Value(unlP) && lockedCall != nil && a[1] == ssa.Value(lockedCall)
+		switch {
+		case strings.HasSuffix(callName(c.Common()), "types.Coins.IsAllLTE"):
+			return a[0] == ssa.Value(unlP) && a[1] == ssa.Value(lockedCall)
+		case strings.HasSuffix(callName(c.Common()), "types.Coins.IsAllGTE"):
+			// locked.IsAllGTE(amount) is the SDK's own definition of amount.IsAllLTE(locked)
+			return a[1] == ssa.Value(unlP) && a[0] == ssa.Value(lockedCall)
+		}
+		return false
 	}, true)
 	// type assertion ok edge
 	var okVals []ssa.Value
